@@ -171,6 +171,7 @@ struct Runner {
 
     void onDestroy(int id) {
         ++C.tokensDestroyed;
+        if (gCaseFailed) return;   // the model stopped following this history at the first violation
         Entry &x = *e[id];
         if (x.destroyed) return fail(gProp, "observer-destroyed-twice", site, "observer " + std::to_string(id));
         x.destroyed = true;
